@@ -24,10 +24,10 @@ import (
 //verif:stub (net/netip.Addr).IsUnspecified stubAddrUnspec
 
 var (
-	theFP       string
-	boundAddr   string
-	listenArg   string
-	sstlsFails  bool
+	theFP      string
+	boundAddr  string
+	listenArg  string
+	sstlsFails bool
 )
 
 func stubSstlsListen(network, address, subject string, lifespan time.Duration, certFile string) (sstls.Listener, error) {
@@ -44,11 +44,11 @@ func stubParseAddrPort(s string) (netip.AddrPort, error) {
 	}
 	return netip.AddrPort{}, &stubErr{"not an ip:port"}
 }
-func stubAPPort(p netip.AddrPort) uint16             { return 4444 }
-func stubAPAddr(p netip.AddrPort) netip.Addr         { return netip.Addr{} }
-func stubAPString(p netip.AddrPort) string           { return boundAddr }
-func stubAPCompare(p, q netip.AddrPort) int          { return 0 }
-func stubAddrUnspec(a netip.Addr) bool               { return false }
+func stubAPPort(p netip.AddrPort) uint16     { return 4444 }
+func stubAPAddr(p netip.AddrPort) netip.Addr { return netip.Addr{} }
+func stubAPString(p netip.AddrPort) string   { return boundAddr }
+func stubAPCompare(p, q netip.AddrPort) int  { return 0 }
+func stubAddrUnspec(a netip.Addr) bool       { return false }
 
 func hasPrefix(s, p string) bool { return len(s) >= len(p) && s[:len(p)] == p }
 func hasSuffix(s, p string) bool { return len(s) >= len(p) && s[len(s)-len(p):] == p }
